@@ -130,7 +130,7 @@ Print Assumptions C02_chunked_false_example.
    handler's payload stream is never completed, the truncated prefix is not handed over as a whole body.
    (With write_eof() after the try - seeded change C02-4 - the generated flag flips and this proof breaks.) *)
 Theorem C02_aborted_body_not_completed : forall lim o r k w',
-  writer_chunking_enabled (c_chunked r) = true ->
+  req_chunking r = true ->
   client_serialize r <> None -> valid lim r = true ->
   client_serialize_aborted r k = Some w' ->
   forall segs, concat segs = w' ->
@@ -141,7 +141,7 @@ Print Assumptions C02_aborted_body_not_completed.
 
 Example C02_aborted_body_example :
   let r := built ex_chunked in
-  writer_chunking_enabled (c_chunked r) = true /\ client_serialize r <> None /\ valid lim0 r = true /\
+  req_chunking r = true /\ client_serialize r <> None /\ valid lim0 r = true /\
   client_serialize_aborted r 2 <> None /\
   digest (run_segs lim0 [] init [wire_aborted r 2] [] []) =
     (ROk [], [([80; 79; 83; 84], [47; 112], [120], [1], false, None)]) /\
@@ -149,6 +149,12 @@ Example C02_aborted_body_example :
     (ROk [], [([80; 79; 83; 84], [47; 112], [120; 121; 122], [1; 3], true, None)]).
 Proof. exact ex_aborted. Qed.
 Print Assumptions C02_aborted_body_example.
+
+(* since fix ef4bcfa the client counts the declared Content-Length down (writer.length) and fails the request when the body
+   source ends short of it (Generated/WireGen.client_counts_declared_length); for a valid request nothing is missing *)
+Theorem C02_valid_request_has_no_shortfall : forall lim r, valid lim r = true -> body_shortfall r = 0.
+Proof. exact valid_no_shortfall. Qed.
+Print Assumptions C02_valid_request_has_no_shortfall.
 
 (* ------------------------------------------------------------------ 3. keep-alive, request side *)
 Theorem C02_keepalive_request_side : forall lim i r,
